@@ -285,6 +285,15 @@ func makeOptions(opts []Option) *options {
 	return &o
 }
 
+// scopeActiveFields opens a new scope for tracking references being resolved.
+// The returned function closes the scope, forgetting all references added
+// since.
+func (o *options) scopeActiveFields() func() {
+	prev := o.activeFields
+	o.activeFields = newFieldSet(prev)
+	return func() { o.activeFields = prev }
+}
+
 func (cache valueCache) cachedValue(
 	id cacheID,
 	f func() (value, error),
